@@ -27,13 +27,14 @@ type params struct {
 	Restart   bool     // explore a restart between reorg and continuation
 	Nested    bool     // explore a second reorg inside / at / above the continuation
 	AfterFull bool     // block after the second reorg: full alphabet (else: none or the continuation's kind)
+	NestedMax int      // a second reorg is explored only for continuations of at most this length (0: any)
 }
 
 var bCache = map[string][]sk.Obs{}
 
 // reduced alphabets for the longest histories (tree-relevant and deletion-relevant kinds)
 var reduced = map[sk.Kind][]string{
-	sk.Bridge: {"empty", "bridge", "bridge2", "migrate", "rmlegacy"},
+	sk.Bridge: {"empty", "bridge", "bridge2", "migrate", "rmlegacy", "same"},
 	sk.L1Info: {"empty", "info", "info2", "verify", "v2"},
 	sk.GER:    {"empty", "insert", "remove", "insertinfo"},
 }
@@ -74,12 +75,15 @@ func units(tier string) []mc.Unit {
 			continue
 		}
 		if tier == "quick" {
-			add(3, full, func(h []string) *params {
-				switch len(h) {
-				case 1:
-					return &params{MaxCont: 1, ContKinds: full, Restart: true, Nested: true}
-				case 2:
-					return &params{MaxCont: 1, ContKinds: full, Restart: true}
+			add(2, full, func(h []string) *params {
+				if len(h) == 1 {
+					return &params{MaxCont: 2, ContKinds: full, Restart: true, Nested: true, NestedMax: 1}
+				}
+				return &params{MaxCont: 1, ContKinds: full, Restart: true}
+			})
+			add(3, reduced[store], func(h []string) *params {
+				if len(h) < 3 {
+					return nil
 				}
 				return &params{MaxCont: 1, ContKinds: full[2:3]}
 			})
@@ -166,7 +170,7 @@ func run(c *mc.Ctx, u mc.Unit) {
 			return
 		}
 	}
-	if p.Nested && contLen > 0 && c.Bool("second-reorg") {
+	if p.Nested && contLen > 0 && (p.NestedMax == 0 || contLen <= p.NestedMax) && c.Bool("second-reorg") {
 		// nested (inside the continuation), repeated (same point) or above the tip
 		lo := b
 		if lo > chain.Tip()+1 {
@@ -294,7 +298,8 @@ func main() {
 					"ger":           "histories <=5 blocks, continuation <=1 (<=2 for histories <=3), restart, nested reorg for histories <=3", "reorg_points": "1..N+2"}
 			}
 			return map[string]any{"alphabets": sk.BlockKinds,
-				"bridge_l1info": "histories <=3 blocks over the full alphabet (1 block: continuation <=1, restart, nested reorg; 2 blocks: continuation <=1, restart; 3 blocks: continuation none or one two-leaf block)",
+				"reduced_alphabets_for_3_block_histories": reduced,
+				"bridge_l1info": "histories <=2 blocks over the full alphabet (1 block: continuation <=2, restart, nested reorg after 1-block continuations; 2 blocks: continuation <=1, restart) + all 3-block histories over the reduced alphabet with continuation none or one two-leaf block",
 				"ger":           "histories <=3 blocks, continuation <=1, restart, nested reorg for histories <=2", "reorg_points": "1..N+2"}
 		},
 	})
